@@ -25,6 +25,14 @@ Require Import V.Proofs.C04Statements.
 Require Import V.Oracle.C04Oracle.
 Require Import V.Proofs.C04OracleProofs.
 Require Import V.Proofs.C04XOracleProofs.
+Require Import V.Proofs.RenderWords.
+Require Import V.Proofs.C04Bytes.
+Require Import V.Proofs.C04XBytes.
+Require Import V.Model.PubGetters.
+Require Import V.Proofs.C04Getters.
+Require Import V.Proofs.C04LimitContract.
+Require Import V.Proofs.C04Claims.
+Require Import V.Proofs.C04XClaims.
 Open Scope Z_scope.
 
 (* every reachable state satisfies the invariant the other statements are proved from *)
@@ -238,6 +246,295 @@ Theorem C04_oracle_trip_words_partial : forall m rv s n off o s0 r0 n0 off0 e,
                 (o_dump (pub_obs m s (fst (pub_step m rv s o)) (snd (pub_step m rv s o)))) = true.
 Proof. exact oracle_words_trip. Qed.
 Print Assumptions C04_oracle_trip_words_partial.
+
+(* ---- the bytes part, completed (round 3) ----
+   `content_inv l n off`: the active partition's content ends where the tail counter says (at the end of the term once the
+   counter lies beyond it), the tail offset is a multiple of the frame alignment; `mtu_aligned`: the MTU is a multiple of 32
+   (what the driver guarantees; without it the full fragments of a fragmented message are padded and occupy more than
+   `required`).  Both hold at every aligned hand-over point and are kept by every history under the cleaning contract
+   (`C04_content_step`).
+
+   The complete per-step predicate `holds_append` = flow + bytes, for EVERY offer / claim / bulk offer (accepted: unfragmented,
+   fragmented, claim, vectored; refused; tripped): every changed word of an accepted append lies in [tail, tail + required) of the
+   active partition, the other partitions are untouched *)
+Theorem C04_oracle_append : forall m rv s n off o s0 r0 n0 off0,
+  pub_inv n off s -> content_inv (ps_log s) n off -> mtu_aligned (ps_log s) -> op_ok (ps_log s) o -> is_append o = true ->
+  holds_append (geom_of (ps_log s) n0 off0) (env_of s) (kind_of o) (op_len o)
+               (pub_obs m s0 s r0) (pub_obs m s (fst (pub_step m rv s o)) (snd (pub_step m rv s o))) = true.
+Proof. exact oracle_step_shared. Qed.
+Print Assumptions C04_oracle_append.
+
+(* what an accepted append writes: well-formed frames (header + payload inside the frame) laid from the tail offset on,
+   occupying exactly the required bytes; the tail counter advanced by as much *)
+Theorem C04_accept_frames : forall m rv s n off o s' p,
+  pub_inv n off s -> mtu_aligned (ps_log s) -> op_ok (ps_log s) o -> is_append o = true -> pub_step m rv s o = (s', Ok p) ->
+  exists es, Forall entry_wf es /\ term_end es = op_required (ps_log s) o /\
+    ps_log s' = set_part (set_tail (ps_log s) (n mod 3) (wrap32 (l_init (ps_log s) + n) * two32 + (off + op_required (ps_log s) o)))
+                         (n mod 3) (term_put (part (ps_log s) (n mod 3)) off es) /\
+    off + op_required (ps_log s) o <= l_tlen (ps_log s).
+Proof. exact pub_step_wrote. Qed.
+Print Assumptions C04_accept_frames.
+
+(* one step keeps the invariants, provided the partition the log rotates into has been cleaned *)
+Theorem C04_content_step : forall m rv s n off o,
+  pub_inv n off s -> content_inv (ps_log s) n off -> mtu_aligned (ps_log s) -> op_ok (ps_log s) o ->
+  (snd (pub_step m rv s o) = Err AdminAction -> part (ps_log s) (next_index (ps_log s)) = []) ->
+  exists n' off', pub_inv n' off' (fst (pub_step m rv s o)) /\ content_inv (ps_log (fst (pub_step m rv s o))) n' off' /\
+                  same_geom (ps_log s) (ps_log (fst (pub_step m rv s o))).
+Proof. exact content_step. Qed.
+Print Assumptions C04_content_step.
+
+(* the composition over whole histories: the complete oracle (every operation: flow, bytes, environment operations) is true on
+   the model's trace of every history from every aligned hand-over point, under the cleaning contract stated on the run ... *)
+Theorem C04_oracle_history : forall m rv h ops,
+  handover_ok h -> handover_aligned h -> hist_ok (handover_log h) ops ->
+  clean_before_reuse m rv (pub_init (handover_log h)) ops ->
+  holds_history (geom_of_handover h) (map oop_of ops) (pub_trace m rv (pub_init (handover_log h)) ops) = true.
+Proof. exact oracle_history_shared. Qed.
+Print Assumptions C04_oracle_history.
+
+(* ... and under its syntactic form (a Clean between any two appends - what the history generator emits) *)
+Theorem C04_oracle_history_cleaned : forall m rv h ops,
+  handover_ok h -> handover_aligned h -> hist_ok (handover_log h) ops -> cleaned_between false ops ->
+  holds_history (geom_of_handover h) (map oop_of ops) (pub_trace m rv (pub_init (handover_log h)) ops) = true.
+Proof. exact oracle_history_cleaned. Qed.
+Print Assumptions C04_oracle_history_cleaned.
+
+(* ---- the same for the exclusive publication ----
+   `xall n x`: the invariant (`xpub_inv`), the tail counter's shape incl. the last term (`xtail2`), the content of the active
+   partition ends at the publication's own offset (`xcontent_inv`), MTU a multiple of 32; kept by every step under the cleaning
+   contract (`C04_invariants_step_exclusive`) *)
+Theorem C04_oracle_append_exclusive : forall m rv x n o x0 r0 n0 off0,
+  xall n x -> op_ok (xlog x) o -> is_xappend o = true ->
+  holds_append (geom_of (xlog x) n0 off0) (env_of (x_pub x)) (kind_of o) (op_len o)
+               (xpub_obs m x0 x r0) (xpub_obs m x (fst (xpub_step m rv x o)) (snd (xpub_step m rv x o))) = true.
+Proof. exact xoracle_step. Qed.
+Print Assumptions C04_oracle_append_exclusive.
+
+Theorem C04_invariants_step_exclusive : forall m rv x n o, xall n x -> op_ok (xlog x) o ->
+  (snd (xpub_step m rv x o) = Err AdminAction -> part (xlog x) (next_index (xlog x)) = []) ->
+  exists n', xall n' (fst (xpub_step m rv x o)) /\ same_geom (xlog x) (xlog (fst (xpub_step m rv x o))).
+Proof. exact xall_step. Qed.
+Print Assumptions C04_invariants_step_exclusive.
+
+Theorem C04_accept_frames_exclusive : forall m rv x n o x' p,
+  xpub_inv n x -> mtu_aligned (xlog x) -> op_ok (xlog x) o -> is_xappend o = true -> xpub_step m rv x o = (x', Ok p) ->
+  exists es, Forall entry_wf es /\ term_end es = op_required (xlog x) o /\
+    xlog x' = set_part (put_raw_tail (xlog x) (x_idx x) (x_tid x) (x_off x + op_required (xlog x) o)) (x_idx x)
+                       (term_put (part (xlog x) (x_idx x)) (x_off x) es) /\
+    x_off x + op_required (xlog x) o <= l_tlen (xlog x).
+Proof. exact xpub_step_wrote. Qed.
+Print Assumptions C04_accept_frames_exclusive.
+
+Theorem C04_oracle_history_exclusive : forall m rv h ops x0,
+  handover_ok h -> handover_aligned h -> hist_ok (handover_log h) ops -> xpub_new (handover_log h) = Ok x0 ->
+  xclean_before_reuse m rv x0 ops ->
+  holds_history (geom_of_handover h) (map xoop_of ops) (xpub_trace m rv x0 ops) = true.
+Proof. exact xoracle_history. Qed.
+Print Assumptions C04_oracle_history_exclusive.
+
+Theorem C04_oracle_history_exclusive_cleaned : forall m rv h ops x0,
+  handover_ok h -> handover_aligned h -> hist_ok (handover_log h) ops -> xpub_new (handover_log h) = Ok x0 ->
+  cleaned_between false ops ->
+  holds_history (geom_of_handover h) (map xoop_of ops) (xpub_trace m rv x0 ops) = true.
+Proof. exact xoracle_history_cleaned. Qed.
+Print Assumptions C04_oracle_history_exclusive_cleaned.
+
+(* ---- the getters that expose the flow-control state (round 3): is_closed, is_connected, publication_limit(),
+   available_window(), position(), the geometry fixed at construction, the exclusive publication's term_id / term_offset ----
+   available_window() of an open publication is limit - position (computed in i64: `sub64`); it is <= 0 exactly when the
+   position has reached the limit ... *)
+Theorem C04_window : forall m s n off w, pub_inv n off s -> ps_closed s = false ->
+  in_i64 (l_limit (ps_log s) - spec_pos (ps_log s) n off) = true ->
+  pub_window m s = Ok w -> (w <= 0 <-> l_limit (ps_log s) <= spec_pos (ps_log s) n off).
+Proof. exact window_flow. Qed.
+Print Assumptions C04_window.
+
+(* ... and then every offer / claim / bulk offer is refused and changes nothing *)
+Theorem C04_window_refuses : forall m rv s n off w o, pub_inv n off s -> ps_closed s = false ->
+  in_i64 (l_limit (ps_log s) - spec_pos (ps_log s) n off) = true ->
+  pub_window m s = Ok w -> w <= 0 -> op_ok (ps_log s) o -> is_append o = true ->
+  fst (pub_step m rv s o) = s /\ exists e, snd (pub_step m rv s o) = Err e /\ e <> AdminAction.
+Proof. exact window_refuses. Qed.
+Print Assumptions C04_window_refuses.
+
+(* the getters' oracle (`holds_gets`: flags and limit as the environment set them, window = limit - position, position inside the
+   position space and never going back, no advance while the window is <= 0, Closed from every Result getter of a closed
+   publication, the construction-time geometry) is true on the model for every history - no cleaning contract needed *)
+Theorem C04_oracle_getters : forall m rv h ops, handover_ok h -> hist_ok (handover_log h) ops ->
+  holds_gets (geom_of_handover h) false (map oop_of ops)
+             (pub_statics (handover_log h), pub_getters m (pub_init (handover_log h)) :: pub_gets_trace m rv (pub_init (handover_log h)) ops) = true.
+Proof. exact oracle_gets_shared. Qed.
+Print Assumptions C04_oracle_getters.
+
+Theorem C04_oracle_getters_exclusive : forall m rv h ops x0,
+  handover_ok h -> hist_ok (handover_log h) ops -> xpub_new (handover_log h) = Ok x0 ->
+  holds_gets (geom_of_handover h) true (map xoop_of ops)
+             (pub_statics (xlog x0), xpub_getters m x0 :: xpub_gets_trace m rv x0 ops) = true.
+Proof. exact oracle_gets_exclusive. Qed.
+Print Assumptions C04_oracle_getters_exclusive.
+
+(* ---- claim + commit (round 3): the oracle's claim rule ----
+   `holds_history2` = `holds_history` and: commit() / abort() change words of the frame handed out by the last accepted try_claim
+   only (nothing when no claim was accepted).  One step: *)
+Theorem C04_oracle_commit_words : forall m s o cl r0,
+  (o = Abort \/ exists body, o = Commit body) -> all_spans (ps_log s) -> claim_in_place s -> claim_rel cl (ps_claim s) ->
+  claim_words cl (o_dump (pub_obs m s (fst (env_step s o)) r0)) = true.
+Proof. exact oracle_claim_words. Qed.
+Print Assumptions C04_oracle_commit_words.
+
+(* which claim the publication's BufferClaim holds after a step *)
+Theorem C04_claim_after_accept : forall m rv s n off len s' p, pub_inv n off s -> op_ok (ps_log s) (Claim len) ->
+  pub_step m rv s (Claim len) = (s', Ok p) -> ps_claim s' = Some (n mod 3, off, len + 32).
+Proof. exact step_claim_new. Qed.
+Print Assumptions C04_claim_after_accept.
+
+Theorem C04_claim_kept : forall m rv s n off o s' r, pub_inv n off s -> op_ok (ps_log s) o ->
+  pub_step m rv s o = (s', r) -> (forall len p, o = Claim len -> r <> Ok p) -> ps_claim s' = ps_claim s.
+Proof. exact step_claim_same. Qed.
+Print Assumptions C04_claim_kept.
+
+(* whole histories of the shared publication: the cleaning contract, and commits / aborts made while the claimed frame is still the
+   one in the log (`commits_in_place`: a BufferClaim is not used after its partition has been cleaned and reused) *)
+Theorem C04_oracle_history2 : forall m rv h ops,
+  handover_ok h -> handover_aligned h -> hist_ok (handover_log h) ops ->
+  clean_before_reuse m rv (pub_init (handover_log h)) ops -> commits_in_place m rv (pub_init (handover_log h)) ops ->
+  holds_history2 (geom_of_handover h) (map oop_of ops) (pub_trace m rv (pub_init (handover_log h)) ops) = true.
+Proof. exact oracle_history2_shared. Qed.
+Print Assumptions C04_oracle_history2.
+
+(* the same for the exclusive publication *)
+Theorem C04_claim_after_accept_exclusive : forall m rv x n len x' p, xpub_inv n x -> op_ok (xlog x) (Claim len) ->
+  xpub_step m rv x (Claim len) = (x', Ok p) -> ps_claim (x_pub x') = Some (x_idx x, x_off x, len + 32).
+Proof. exact xstep_claim_new. Qed.
+Print Assumptions C04_claim_after_accept_exclusive.
+
+Theorem C04_oracle_history2_exclusive : forall m rv h ops x0,
+  handover_ok h -> handover_aligned h -> hist_ok (handover_log h) ops -> xpub_new (handover_log h) = Ok x0 ->
+  xclean_before_reuse m rv x0 ops -> xcommits_in_place m rv x0 ops ->
+  holds_history2 (geom_of_handover h) (map xoop_of ops) (xpub_trace m rv x0 ops) = true.
+Proof. exact xoracle_history2. Qed.
+Print Assumptions C04_oracle_history2_exclusive.
+
+(* ---- the limit contract (`limit_ok`: limit <= TL*2^31 + TL/2), examined (round 3) ----
+   Negative limits, limits below the position, i64::MIN: always inside the contract (it is an upper bound only).
+   The exclusive publication does not need the contract at all: `xreachable_any` = histories whose SetLimit operations carry any
+   value whatsoever; every statement above holds for them *)
+Theorem C04_exclusive_any_limit_invariant : forall m rv x, xreachable_any m rv x -> exists n, xpub_inv n x /\ xtail_ok n x.
+Proof. exact xreachable_any_inv. Qed.
+Print Assumptions C04_exclusive_any_limit_invariant.
+
+Theorem C04_exclusive_any_limit_accept : forall m rv x, xreachable_any m rv x -> forall o x' p,
+  op_ok (xlog x) o -> is_xappend o = true -> xpub_step m rv x o = (x', Ok p) ->
+  exists b, xpub_position m x = Ok b /\ b < l_limit (xlog x) /\ ps_closed (x_pub x) = false /\ op_too_long (xlog x) o = false /\
+            p = b + op_required (xlog x) o /\ xpub_position m x' = Ok p /\ 0 <= p <= l_tlen (xlog x) * two31.
+Proof. exact c04x_any_accept. Qed.
+Print Assumptions C04_exclusive_any_limit_accept.
+
+Theorem C04_exclusive_any_limit_refuse_pure : forall m rv x, xreachable_any m rv x -> forall o x' e,
+  op_ok (xlog x) o -> is_xappend o = true -> xpub_step m rv x o = (x', Err e) ->
+  (e = BackPressured \/ e = NotConnected \/ e = Closed \/ e = TooLong) -> x' = x.
+Proof. exact c04x_any_refuse_pure. Qed.
+Print Assumptions C04_exclusive_any_limit_refuse_pure.
+
+Theorem C04_exclusive_any_limit_refuse_at_limit : forall m rv x, xreachable_any m rv x -> forall o b,
+  op_ok (xlog x) o -> is_xappend o = true -> ps_closed (x_pub x) = false ->
+  xpub_position m x = Ok b -> l_limit (xlog x) <= b ->
+  xpub_step m rv x o =
+    (x, Err (match o with
+             | Claim len => if max_payload_length (xlog x) <? len then TooLong else status_of (xlog x) b len
+             | _ => status_of (xlog x) b (op_len o) end)).
+Proof. exact c04x_any_refuse_at_limit. Qed.
+Print Assumptions C04_exclusive_any_limit_refuse_at_limit.
+
+Theorem C04_exclusive_any_limit_max : forall m rv x, xreachable_any m rv x -> ps_closed (x_pub x) = false ->
+  exists p, xpub_position m x = Ok p /\ 0 <= p <= l_tlen (xlog x) * two31.
+Proof. exact c04x_any_max. Qed.
+Print Assumptions C04_exclusive_any_limit_max.
+
+Theorem C04_exclusive_any_limit_total : forall m rv x, xreachable_any m rv x -> forall o, op_ok (xlog x) o -> is_xappend o = true ->
+  match snd (xpub_step m rv x o) with
+  | Ok _ | Err BackPressured | Err NotConnected | Err AdminAction | Err MaxPositionExceeded | Err Closed | Err TooLong => True
+  | _ => False
+  end.
+Proof. exact c04x_any_total. Qed.
+Print Assumptions C04_exclusive_any_limit_total.
+
+Theorem C04_exclusive_any_limit_trip : forall m rv x, xreachable_any m rv x -> forall o x' e,
+  op_ok (xlog x) o -> is_xappend o = true -> xpub_step m rv x o = (x', Err e) -> x' <> x ->
+  exists n, xpub_inv n x /\ ps_closed (x_pub x) = false /\ xspec_pos x < l_limit (xlog x) /\
+    l_tlen (xlog x) < x_off x + op_required (xlog x) o /\
+    ((e = AdminAction /\ n < two31 - 1 /\
+      xlog x' = rotated (xbumped (xlog x) (x_idx x) (x_tid x) (x_off x) (op_required (xlog x) o)) n) \/
+     (e = MaxPositionExceeded /\ n = two31 - 1 /\
+      xlog x' = xbumped (xlog x) (x_idx x) (x_tid x) (x_off x) (op_required (xlog x) o))).
+Proof. exact c04x_any_trip. Qed.
+Print Assumptions C04_exclusive_any_limit_trip.
+
+Theorem C04_exclusive_any_limit_oracle_flow : forall m rv x, xreachable_any m rv x -> forall o x0 r0 n0 off0,
+  op_ok (xlog x) o -> is_xappend o = true ->
+  flow_append (geom_of (xlog x) n0 off0) (env_of (x_pub x)) (kind_of o) (op_len o)
+              (xpub_obs m x0 x r0) (xpub_obs m x (fst (xpub_step m rv x o)) (snd (xpub_step m rv x o))) = true.
+Proof. exact c04x_any_oracle_flow. Qed.
+Print Assumptions C04_exclusive_any_limit_oracle_flow.
+
+(* The shared publication needs it.  With the limit far beyond the end of the position space every claim made after the last
+   term is full is refused with MaxPositionExceeded but still bumps the shared tail counter (fetch-add comes first, as in the
+   upstream clients); a history that is legal in every respect except the contract - hand-over at the end of the last term of a
+   1 KiB-term log, limit := 2^62, then 67108832 claims of zero bytes - brings the 32-bit offset to 2^31, and the next claim of zero
+   bytes panics in the debug build (term count + 1 overflows) and, in the release build, rotates the log out of the last term,
+   reports AdminAction and leaves the active term count at -2^31.  So `limit_ok` cannot be dropped from C04_total / C04_trip /
+   C04_max for the shared publication; it is what the driver guarantees (limit = consumer position + term window <= TL/2). *)
+Theorem C04_limit_contract_needed :
+  (exists bits, 10 <= bits <= 30 /\ 1024 = 2 ^ bits) /\
+  (exists k, Z.of_nat k = 67108832 /\
+     let ops := SetLimit WLIMIT :: repeat (Claim 0) k in
+     Forall op_ok_any ops /\
+     pub_run Debug harness_rv (pub_init wl0) ops = wstate 67108832 /\
+     pub_run Release harness_rv (pub_init wl0) ops = wstate 67108832) /\
+  snd (pub_step Debug harness_rv (wstate 67108832) (Claim 0)) = Panic /\
+  snd (pub_step Release harness_rv (wstate 67108832) (Claim 0)) = Err AdminAction /\
+  l_count (ps_log (fst (pub_step Release harness_rv (wstate 67108832) (Claim 0)))) = - two31.
+Proof. exact limit_contract_needed. Qed.
+Print Assumptions C04_limit_contract_needed.
+
+(* non-vacuity: a history that trips at the end of a term, rotates, fragments a message, claims and commits *)
+Example C04_history_example :
+  let h := mkHandover 7 1024 96 11 22 4 960 in
+  let ops := [SetLimit 100000; SetConnected true; Offer (payload 1 100); Clean; Offer (payload 2 100); Clean; Claim 8; Clean;
+              Commit (payload 3 8); Bulk [firstn 10 (payload 4 30); []; skipn 10 (payload 4 30)]] in
+  handover_ok h /\ handover_aligned h /\ hist_ok (handover_log h) ops /\ cleaned_between false ops /\
+  commits_in_place Debug harness_rv (pub_init (handover_log h)) ops /\
+  map (fun x => fst (fst x)) (pub_trace Debug harness_rv (pub_init (handover_log h)) ops) =
+    [Ok 0; Ok 0; Err AdminAction; Ok 0; Ok 5312; Ok 0; Ok 5376; Ok 0; Ok 0; Ok 5440].
+Proof.
+  cbv zeta. split; [|split; [|split; [|split; [|split]]]].
+  - unfold handover_ok, geometry_ok. cbn [h_init h_tlen h_mtu h_n0 h_off0].
+    split; [split; [exists 10; split; [lia|reflexivity]|]|]; vm_compute; repeat split; discriminate.
+  - split; reflexivity.
+  - unfold hist_ok. repeat (constructor; [vm_compute; try exact I; repeat split; discriminate|]). constructor.
+  - vm_compute. repeat split.
+  - vm_compute. repeat (split; [exact I|]). split; [|split; exact I].
+    eexists. split; [first [left; reflexivity | right; reflexivity]|]. split; [reflexivity|discriminate].
+  - vm_compute. reflexivity.
+Qed.
+
+Example C04_history_example_exclusive :
+  let h := mkHandover 2147483647 1024 96 11 22 (two31 - 1) 960 in
+  let ops := [SetLimit (1024 * two31 + 100); Offer (payload 1 100); Clean; Claim 8; Clean; Commit (payload 3 8); Offer (payload 2 8)] in
+  handover_ok h /\ handover_aligned h /\ hist_ok (handover_log h) ops /\ cleaned_between false ops /\
+  exists x0, xpub_new (handover_log h) = Ok x0 /\
+    map (fun x => fst (fst x)) (xpub_trace Debug harness_rv x0 ops) =
+      [Ok 0; Err MaxPositionExceeded; Ok 0; Err MaxPositionExceeded; Ok 0; Panic; Err MaxPositionExceeded].
+Proof.
+  cbv zeta. split; [|split; [|split; [|split]]].
+  - unfold handover_ok, geometry_ok. cbn [h_init h_tlen h_mtu h_n0 h_off0].
+    split; [split; [exists 10; split; [lia|reflexivity]|]|]; vm_compute; repeat split; discriminate.
+  - split; reflexivity.
+  - unfold hist_ok. repeat (constructor; [vm_compute; try exact I; repeat split; discriminate|]). constructor.
+  - vm_compute. repeat split.
+  - eexists. split; [reflexivity|]. vm_compute. reflexivity.
+Qed.
 
 (* ---- the hypotheses are satisfiable: a log handed over 64 bytes before the end of the very last term, initial term id
    i32::MAX (so every term id has wrapped), a limit just beyond the end of the position space ---- *)
